@@ -62,6 +62,7 @@ func Prologues() []Prologue {
 		pushAll("callA", zero, zero, zero, zero, zero, a, max),              // CALL(gas=max, A, 0, 0,0,0,0): self call
 		pushAll("create", zero, zero, zero, w32, zero, one, w32, zero, one), // CREATE(value 1, off 0, size 0x20)
 		pushAll("signed", p255, max, p255, max, one, p255, max, p255),
+		pushAll("precomp", one, w32, w32, w32, zero, zero, two, max), // CALL(gas=max, addr=2 (sha256), 0, in 0..32, out 32..64)
 	}
 	// 1023 items: PUSH1 1 then 1022 DUP1
 	full := New().Push(1)
